@@ -171,5 +171,9 @@ def run(rep: Report, tier: str) -> None:
                         f"session directory is `{txt[:80]}`: not unique per call, so two overlapping run() calls of one process share the spill "
                         f"directory / session.duckdb file and the first to finish deletes it under the other"))
     rep.analysed = {"parser_sites": nsites, "globals": nglob, "api_reachable_functions": len(reach)}
+    # ---- R17.4 hand-rolled caches: state shared by every call in the process, keyed by less than the computation reads ----
+    rep.rule("R17.4", "no hand-rolled cache (lookup + store in a container that outlives the call) whose key omits a parameter the cached value depends on")
+    from sa import globalsx as _gx4
+    _gx4.report_handrolled_memos(P, rep, "R17.4", ("vtlengine",), "concurrent or successive API calls then observe each other's results")
     rep.assumptions = ["operator validate methods and visitor visit_* methods are reachable from the API through dispatch tables",
                        "CPython: attribute/global writes are not atomic with respect to a later read in the same call"]
